@@ -943,7 +943,7 @@ func (r *envelopingReader) prepareNext() error {
 			// Oof. We have to buffer entire request in order to measure it.
 			limit := int64(r.rw.op.methodConf.maxMsgBufferBytes)
 			buf := r.rw.op.bufferPool.Get()
-			_, err := io.Copy(buf, &hardLimitReader{r: r.r, rw: r.rw, limit: limit + 1})
+			_, err := io.Copy(buf, &hardLimitReader{r: r.r, rw: r.rw, limit: limit})
 			if err != nil {
 				r.rw.op.bufferPool.Put(buf)
 				r.err = err
